@@ -3,6 +3,7 @@ import DinoProofs.Lemmas.ScalingSW
 import DinoProofs.Lemmas.ScalingHS
 import DinoProofs.Lemmas.ScalingStep
 import DinoProofs.Lemmas.ScalingTraj
+import DinoProofs.Lemmas.ScalingFilter
 import DinoProofs.Lemmas.Units
 import Dino.Lin
 import Mathlib.Algebra.Algebra.Prod
@@ -28,8 +29,14 @@ and `Dino.Filters` (the filter time scales).
   filtered steps and, by iteration, trajectories; the exponential and the horizontal-diffusion step
   filters do not depend on the scale when `dt` and `tau` are both times.
 
-Hypotheses that are laws of the horizontal operations (`OpsLaws`, `ProjLaws`), the relation between the
-two inverses returned by `numpy.linalg.inv` (`InvScaled`) and the fixed point of the constant mode
+  The filter hypothesis of histories (`FilterScaled`) is DISCHARGED for every tree filter that applies one
+  additive, homogeneous multiplier fixing the constant mode to every modal leaf (`leaf_filter_scaled`), hence for
+  the multipliers of the total wavenumber with factor one at `l = 0` (`wavenumber_filter_scaled`), hence for
+  `exponential_step_filter` with `cutoff ≥ 0` and `horizontal_diffusion_step_filter` with `order ≥ 1`
+  (`pe_history_commutes_step_filters`; the two conditions are necessary: `negative_cutoff_breaks_filter`).
+
+Hypotheses that are laws of the horizontal operations (`OpsLaws`, `ProjLaws`, `ConstProj`), the relation between
+the two inverses returned by `numpy.linalg.inv` (`InvScaled`) and the fixed point of the constant mode
 (`ConstMode`) are named structures validated on real grids / matrices by `harness/props/C12.py`.
 -/
 set_option linter.unusedSectionVars false
@@ -412,6 +419,95 @@ theorem histScaled_scale_dt {V : Type} (St : V → Prop) (t : K) (A : V → V) (
 
 end T122classes
 
+/-! ## T12.2 with filters: the hypothesis `FilterScaled` of histories, discharged -/
+section T122filters
+open Dino.Imex Dino.Invariants
+variable {K M N : Type} [Field K] [AddCommGroup M] [Module K M] [CommRing N] [Algebra K N] [Div N]
+variable [BEq K] [LawfulBEq K]
+variable {g : Scale K} (p : PrimitiveEquations K M N)
+
+/-- **`FilterScaled` for leaf-wise linear filters**: a tree filter that applies to every modal leaf one map `φ`
+ that is additive, homogeneous and fixes the constant mode (`φ one = one`), and leaves the clock alone, is related
+ to ITSELF under the change of units — for every additive constant `c` of `ln p_s` -/
+theorem leaf_filter_scaled {φ : M → M} {one : M} (hφ : LeafLinear K φ one) (c : K) :
+    FilterScaled (Proper (V := StateWithTime K M)) (tmMap (actStateT g c one)) (tmMap (leafFilter φ))
+      (tmMap (leafFilter φ)) :=
+  filterScaled_leafFilter hφ c
+
+/-- **`FilterScaled` for the filters of `filtering.py`** (`scaling * x`, one factor per total wavenumber): the
+ filter with scaling `s` on the grid of radius `a` and the one with the same `s` on the grid of radius `l·a`,
+ provided the factor at total wavenumber `0` is one -/
+theorem wavenumber_filter_scaled {h : HOps K M N} (hp : ProjLaws h) (h0 : ConstProj h) (s : List K)
+    (hs : s.head? = some 1) (c : K) :
+    FilterScaled (Proper (V := StateWithTime K M)) (tmMap (actStateT g c h.oneModal))
+      (tmMap (leafFilter (lMul h s))) (tmMap (leafFilter (lMul (actOps g h) s))) :=
+  filterScaled_lMul hp h0 s hs c
+
+/-- **T12.2 (trajectories with filters, any class)**: any history of (scheme, step size, filters) whose filters
+ are leaf-wise linear and fix the constant mode; under the other scale every `dt` is multiplied by `t` and the
+ filters are the same maps -/
+theorem pe_history_commutes_leaf_filters (hg : g.Valid) (hl : OpsLaws p.ops) (hp : ProjLaws p.ops) (cls : Cls)
+    (c : K) (n : ℕ) (hn : p.vert.layers = n) (invOf invOf' : K → ℕ → List (List K))
+    (hs : ∀ η, InvScaled g n (invOf η) (invOf' (g.t * η))) (hc : ∀ η, ConstMode p n (invOf η))
+    (hsq : ∀ η l, (invOf η l).length = 2 * n + 1)
+    (hist : List (Scheme K × K × List (M → M)))
+    (hφ : ∀ en ∈ hist, ∀ φ ∈ en.2.2, LeafLinear K φ p.ops.oneModal) (u : StateWithTime K M) :
+    runHistory (peImEx cls (actEq g p) invOf')
+        (hist.map fun en => ⟨en.1, g.t * en.2.1, en.2.2.map fun φ => tmMap (leafFilter φ)⟩)
+        (TM.val (actStateT g c p.ops.oneModal u))
+      = (runHistory (peImEx cls p invOf)
+          (hist.map fun en => ⟨en.1, en.2.1, en.2.2.map fun φ => tmMap (leafFilter φ)⟩)
+          (TM.val u)).map (tmMap (actStateT g c p.ops.oneModal)) :=
+  pe_history_commutes p hg hl hp cls c n hn invOf invOf' hs hc hsq (histScaled_leafFilters c hist hφ) u
+
+end T122filters
+
+section T122stepfilters
+open Dino.Imex Dino.Invariants
+variable {K M N : Type} [Field K] [LinearOrder K] [IsStrictOrderedRing K] [AddCommGroup M] [Module K M]
+variable [CommRing N] [Algebra K N] [Div N] [BEq K] [LawfulBEq K]
+variable {g : Scale K} (p : PrimitiveEquations K M N)
+
+/-- the scaling array of `exponential_step_filter` / `horizontal_diffusion_step_filter` is the same array in the
+ two unit systems (`dt`, `tau` times `t`; radius times `l`) -/
+theorem step_filter_scaling_invariant (hg : g.Valid) (ex : K → K) (dt radius : K) (ls : List K)
+    (f : StepFilter K) :
+    (f.act g).scaling ex (g.t * dt) (g.l * radius) ls = f.scaling ex dt radius ls :=
+  stepFilter_scaling_act hg ex dt radius ls f
+
+/-- its factor at total wavenumber `0` is exactly one when `exp 0 = 1` and the filter is admissible
+ (`cutoff ≥ 0`, resp. `order ≥ 1`), and it has one factor per total wavenumber -/
+theorem step_filter_fixes_constant_mode (ex : K → K) (hex : ex 0 = 1) (dt radius : K) (rest : List K)
+    (f : StepFilter K) (hf : f.Admissible) (s : List K) (hs : f.scaling ex dt radius (0 :: rest) = some s) :
+    s.head? = some 1 ∧ s.length = rest.length + 1 :=
+  stepFilter_scaling_head ex hex dt radius rest f hf s hs
+
+/-- **T12.2 (trajectories with the step filters of `time_integration.py`, any class)**: any history of
+ (scheme, step size, exponential / diffusion step filters with their computed scaling arrays) on the grid with
+ total wavenumbers `0 :: rest`.  Under the other scale (every `dt` and `tau` times `t`, grid of radius `l·a`)
+ (i) the filters compute the SAME arrays, (ii) these have one factor per total wavenumber, and (iii) the
+ trajectory is the acted-upon trajectory.  Hypotheses beyond those of `pe_history_commutes`: the constant field is
+ a pure `l = 0` mode (`ConstProj`), `exp 0 = 1`, every exponential filter has `cutoff ≥ 0` and every diffusion
+ filter `order ≥ 1` (`Admissible`) -/
+theorem pe_history_commutes_step_filters (hg : g.Valid) (hl : OpsLaws p.ops) (hp : ProjLaws p.ops)
+    (h0 : ConstProj p.ops) (cls : Cls) (c : K) (n : ℕ) (hn : p.vert.layers = n)
+    (invOf invOf' : K → ℕ → List (List K))
+    (hs : ∀ η, InvScaled g n (invOf η) (invOf' (g.t * η))) (hc : ∀ η, ConstMode p n (invOf η))
+    (hsq : ∀ η l, (invOf η l).length = 2 * n + 1)
+    (ex : K → K) (hex : ex 0 = 1) (rest : List K) (hlen : rest.length + 1 = p.ops.nL) (hist : List (FEntry K))
+    (hadm : ∀ en ∈ hist, ∀ fs ∈ en.filters, fs.1.Admissible)
+    (hcomp : FEntry.Computed ex p.ops.radius (0 :: rest) hist) (u : StateWithTime K M) :
+    FEntry.Computed ex (actEq g p).ops.radius (0 :: rest) (FEntry.act g hist)
+      ∧ (∀ en ∈ hist, ∀ fs ∈ en.filters, fs.2.length = p.ops.nL)
+      ∧ runHistory (peImEx cls (actEq g p) invOf') (FEntry.toHist (actEq g p).ops (FEntry.act g hist))
+            (TM.val (actStateT g c p.ops.oneModal u))
+          = (runHistory (peImEx cls p invOf) (FEntry.toHist p.ops hist) (TM.val u)).map
+              (tmMap (actStateT g c p.ops.oneModal)) := by
+  obtain ⟨h1, h2, h3⟩ := histScaled_stepFilters (M := M) hg hp h0 c ex hex rest hlen hist hadm hcomp
+  exact ⟨h1, h2, pe_history_commutes p hg hl hp cls c n hn invOf invOf' hs hc hsq h3 u⟩
+
+end T122stepfilters
+
 /-! ## non-vacuity -/
 section examples
 
@@ -570,6 +666,107 @@ example :
   pe_history_commutes toyEq toyG_valid toyLaws toyProj .cloud 13 2 rfl (fun _ => toyInv)
     (fun _ l => actInverse toyG 2 (toyInv l)) (fun _ => invScaled_of_actInverse toyG_valid 2 _)
     (fun _ => toyConstMode_genuine) (fun _ l => by cases l <;> rfl) (histScaled_scale_dt _ _ _ _) toyState
+
+/-! ### histories WITH filters -/
+
+/-- the constant field of the toy grid is its `l = 0` mode -/
+theorem toyConstProj : ConstProj toyOps :=
+  ⟨by decide, by decide +kernel, fun l => by simp [toyOps]⟩
+
+/-- a stand-in for `exp` on `ℚ` with `ex 0 = 1` (second-order Taylor polynomial) -/
+def toyEx : ℚ → ℚ := fun x => 1 + x + x * x / 2
+
+/-- a three-step history with NON-TRIVIAL filters on the toy grid (total wavenumbers `0, 1`, radius `1`): an
+ exponential and a diffusion step filter after the first step, an exponential filter with cutoff `1/2` and a
+ first-order diffusion filter after the second, none after the third; the recorded arrays are the computed ones
+ (`toyFHist_computed`) -/
+def toyFHist : List (FEntry ℚ) :=
+  [⟨.bfe, 1 / 10, [(.exponential (1 / 2) 1 0, [1, 41 / 50]), (.diffusion (1 / 2) 2, [1, 41 / 50])]⟩,
+   ⟨.cnrk2, 1 / 5, [(.exponential (1 / 2) 2 (1 / 2), [1, 17 / 25]), (.diffusion (3 / 10) 1, [1, 5 / 9])]⟩,
+   ⟨.bfe, 1 / 10, []⟩]
+
+theorem toyFHist_computed : FEntry.Computed toyEx toyOps.radius [0, 1] toyFHist := by
+  unfold FEntry.Computed; decide +kernel
+
+theorem toyFHist_admissible : ∀ en ∈ toyFHist, ∀ fs ∈ en.filters, fs.1.Admissible := by decide +kernel
+
+/-- the filter is not the identity: it changes the toy state (the `l = 1` coefficients are multiplied by `41/50`) … -/
+example : (leafFilter (lMul toyOps [1, 41 / 50]) toyState).state.vorticity = [(0, 41 / 50), (0, -41 / 25)]
+    ∧ (leafFilter (lMul toyOps [1, 41 / 50]) toyState).state.vorticity ≠ toyState.state.vorticity
+    ∧ (leafFilter (lMul toyOps [1, 41 / 50]) toyState).state.logSurfacePressure = (11, 41 / 250)
+    ∧ (leafFilter (lMul toyOps [1, 41 / 50]) toyState).simTime = toyState.simTime := by decide +kernel
+
+/-- … `FilterScaled` holds for it (`wavenumber_filter_scaled`, all hypotheses instantiated) … -/
+example : FilterScaled (Proper (V := StateWithTime ℚ (ℚ × ℚ))) (tmMap (actStateT toyG 13 toyOps.oneModal))
+    (tmMap (leafFilter (lMul toyOps [1, 41 / 50]))) (tmMap (leafFilter (lMul (actOps toyG toyOps) [1, 41 / 50]))) :=
+  wavenumber_filter_scaled toyProj toyConstProj _ rfl 13
+
+/-- … and **T12.2 for a history WITH filters**: the cloud class on the toy problem (concrete inverses, all
+ hypotheses instantiated); three steps, four non-trivial filters, change of all four units.  The scaling arrays
+ under the other scale (`dt`, `tau` times `3`, radius times `2`) are the same arrays, and the filtered trajectory
+ is the acted-upon filtered trajectory -/
+example :
+    FEntry.Computed toyEx (actEq toyG toyEq).ops.radius [0, 1] (FEntry.act toyG toyFHist)
+      ∧ (∀ en ∈ toyFHist, ∀ fs ∈ en.filters, fs.2.length = toyOps.nL)
+      ∧ Invariants.runHistory (Invariants.peImEx .cloud (actEq toyG toyEq) (fun _ _ => actInverse toyG 2 eye5))
+            (FEntry.toHist (actEq toyG toyEq).ops (FEntry.act toyG toyFHist))
+            (Invariants.TM.val (actStateT toyG 13 toyOps.oneModal toyState))
+          = (Invariants.runHistory (Invariants.peImEx .cloud toyEq (fun _ _ => eye5))
+              (FEntry.toHist toyOps toyFHist) (Invariants.TM.val toyState)).map
+              (tmMap (actStateT toyG 13 toyOps.oneModal)) :=
+  pe_history_commutes_step_filters toyEq toyG_valid toyLaws toyProj toyConstProj .cloud 13 2 rfl (fun _ _ => eye5)
+    (fun _ _ => actInverse toyG 2 eye5) (fun _ => invScaled_of_actInverse toyG_valid 2 _) (fun _ => toyConstMode)
+    (fun _ _ => rfl) toyEx (by norm_num [toyEx]) [1] rfl toyFHist toyFHist_admissible toyFHist_computed toyState
+
+/-- the same with the genuine inverse at `η = 1/10`: one filtered Euler step -/
+example :
+    Invariants.runHistory (Invariants.peImEx .cloud (actEq toyG toyEq) (fun _ l => actInverse toyG 2 (toyInv l)))
+        (FEntry.toHist (actEq toyG toyEq).ops (FEntry.act toyG (toyFHist.take 1)))
+        (Invariants.TM.val (actStateT toyG 13 toyOps.oneModal toyState))
+      = (Invariants.runHistory (Invariants.peImEx .cloud toyEq (fun _ => toyInv))
+          (FEntry.toHist toyOps (toyFHist.take 1)) (Invariants.TM.val toyState)).map
+          (tmMap (actStateT toyG 13 toyOps.oneModal)) :=
+  (pe_history_commutes_step_filters toyEq toyG_valid toyLaws toyProj toyConstProj .cloud 13 2 rfl (fun _ => toyInv)
+    (fun _ l => actInverse toyG 2 (toyInv l)) (fun _ => invScaled_of_actInverse toyG_valid 2 _)
+    (fun _ => toyConstMode_genuine) (fun _ l => by cases l <;> rfl) toyEx (by norm_num [toyEx]) [1] rfl
+    (toyFHist.take 1) (by decide +kernel) (by unfold FEntry.Computed; decide +kernel) toyState).2.2
+
+/-- the vorticity of the final state of a run -/
+def vortOf : Option (Invariants.TM (StateWithTime ℚ (ℚ × ℚ))) → List (ℚ × ℚ)
+  | some (.val s) => s.state.vorticity
+  | _ => []
+
+/-- the filters really act along that trajectory: the filtered and the unfiltered Euler step (genuine inverse) end
+ in different states -/
+theorem toy_filters_change_the_trajectory :
+    vortOf (Invariants.runHistory (Invariants.peImEx .cloud toyEq (fun _ => toyInv))
+        (FEntry.toHist toyOps (toyFHist.take 1)) (Invariants.TM.val toyState))
+      ≠ vortOf (Invariants.runHistory (Invariants.peImEx .cloud toyEq (fun _ => toyInv))
+        [⟨.bfe, 1 / 10, []⟩] (Invariants.TM.val toyState))
+    ∧ vortOf (Invariants.runHistory (Invariants.peImEx .cloud toyEq (fun _ => toyInv))
+        (FEntry.toHist toyOps (toyFHist.take 1)) (Invariants.TM.val toyState)) ≠ [] := by
+  decide +kernel
+
+/-- NEGATIVE WITNESS (indexed): the two admissibility conditions are needed.  With a negative cutoff the
+ exponential step filter damps the constant mode (factor `761/800` at `l = 0`), with `order = 0` the diffusion
+ filter does (factor `41/50`); such a filter does not commute with the change of units, because that adds a
+ constant to `ln p_s`: the filtered `ln p_s` of the acted-upon state differs from the acted-upon filtered one -/
+theorem negative_cutoff_breaks_filter :
+    (StepFilter.exponential (1 / 2 : ℚ) 1 (-1)).scaling toyEx (1 / 10) 1 [0, 1] = some [761 / 800, 41 / 50]
+    ∧ (StepFilter.diffusion (1 / 2 : ℚ) 0).scaling toyEx (1 / 10) 1 [0, 1] = some [41 / 50, 41 / 50]
+    ∧ (leafFilter (lMul toyOps [761 / 800, 41 / 50]) (actStateT toyG 13 toyOps.oneModal toyState)).state.logSurfacePressure
+        ≠ (actStateT toyG 13 toyOps.oneModal (leafFilter (lMul toyOps [761 / 800, 41 / 50]) toyState)).state.logSurfacePressure
+    ∧ (leafFilter (lMul toyOps [41 / 50, 41 / 50]) (actStateT toyG 13 toyOps.oneModal toyState)).state.logSurfacePressure
+        ≠ (actStateT toyG 13 toyOps.oneModal (leafFilter (lMul toyOps [41 / 50, 41 / 50]) toyState)).state.logSurfacePressure := by
+  decide +kernel
+
+/-- `LeafLinear` has content beyond multipliers of `l`: a map that is linear but moves the constant mode is not
+ allowed (`φ (a₀, a₁) = (a₀ / 2, a₁)`) -/
+example : ¬ LeafLinear ℚ (fun a : ℚ × ℚ => (a.1 / 2, a.2)) toyOps.oneModal := by
+  intro h
+  have := h.map_one
+  revert this
+  decide +kernel
 
 /-- `InvScaled` is satisfiable: for any family of inverses, the scaled family of `actInverse` -/
 example (inv : ℕ → List (List ℚ)) : InvScaled toyG 2 inv (fun l => actInverse toyG 2 (inv l)) :=
